@@ -2,6 +2,7 @@ package main
 
 import (
 	"fmt"
+	"strings"
 	"time"
 )
 
@@ -100,7 +101,7 @@ func ExploreSeq(sp *SeqSpec, deadline time.Time) *ExploreStats {
 							}
 						}
 						if !ok {
-							st.Infra = "violation did not reproduce on replay: " + sig
+							st.Infra = "violation did not reproduce on replay: " + sig + " | " + d + " | " + strings.Join(inst.Log(), " ; ")
 							st.Exhaustive = false
 							st.WallMs = time.Since(t0).Milliseconds()
 							return st
